@@ -196,7 +196,7 @@ def _pick(rng, n, choices, p_uniform=0.0, lo=0.0, hi=1.0):
 
 
 def population(rng, date, n_hh=8, params=None, archetypes=None, corner=None,
-               heterogeneous=False, cycle=False):
+               heterogeneous=False, cycle=False, rows=None):
     """Build a valid population DataFrame with every documented input column.
 
     corner: None | "zero" | "huge" | "negative" - value regime for C16-style workloads.
@@ -205,7 +205,10 @@ def population(rng, date, n_hh=8, params=None, archetypes=None, corner=None,
     from _gettsim.config import TYPES_INPUT_VARIABLES
 
     year = date.year
-    rows, chosen = _build_structure(rng, year, n_hh, archetypes, cycle)
+    if rows is None:
+        rows, chosen = _build_structure(rng, year, n_hh, archetypes, cycle)
+    else:
+        chosen = ["custom structure"]
     df = pd.DataFrame(rows)
     n = len(df)
     R = rng
@@ -506,3 +509,65 @@ def replicate_with_wages(base, wages, column="bruttolohn_m", who=0):
     for c in base.columns:
         out[c] = out[c].astype(base[c].dtype)
     return out
+
+
+def domain_sweep(rng, date, params):
+    """A population in which the table-driven inputs run through their whole documented domain:
+    every age 0..100 (children attached to a parent), every birth cohort 1925..1975 among pensioners and
+    early retirees with retirement ages 60..70, household sizes 1..12 x every Mietstufe, every tax class,
+    every degree of disability.  Everything else as in `population`."""
+    year = date.year
+    b = _Builder(rng, year)
+    R = rng
+    n_ms = 7 if year >= 2020 else 6
+    meta = {}
+    # ages: adults alone, minors with a single parent
+    for age in range(0, 101):
+        b.new_hh()
+        if age < 18:
+            par = b.person(int(min(60, age + 25)))
+            b.child(age, par)
+        else:
+            b.person(age, rentner=bool(age >= 67 or (age >= 63 and R.random() < 0.5)))
+    # pension cohorts x retirement ages
+    cohort_rows = []
+    for gj in range(max(1925, year - 100), year - 59):
+        b.new_hh()
+        p = b.person(year - gj, rentner=True)
+        cohort_rows.append((p["p_id"], gj, int(R.integers(60, 71))))
+    # household sizes x Mietstufe
+    size_rows = []
+    for size in range(1, 13):
+        for ms in range(1, n_ms + 1):
+            b.new_hh()
+            a = b.person(int(R.integers(30, 55)))
+            members = [a]
+            if size >= 2:
+                c = b.person(int(R.integers(30, 55)))
+                b.couple(a, c, True)
+                members.append(c)
+            for k in range(size - 2):
+                members.append(b.child(int(R.integers(0, 18)), a, members[1]))
+            size_rows.append((a["hh_id"], ms))
+    df = population(rng, date, params=params, rows=b.rows)
+    pid = df["p_id"].to_numpy()
+    pos = {int(p): i for i, p in enumerate(pid)}
+    for p, gj, ret_age in cohort_rows:
+        i = pos[p]
+        df.at[i, "geburtsjahr"] = gj
+        df.at[i, "alter"] = year - gj
+        df.at[i, "jahr_renteneintr"] = min(gj + ret_age, year)
+        df.at[i, "geburtsmonat"] = int(R.integers(1, 13))
+        df.at[i, "voll_erwerbsgemind"] = False
+        df.at[i, "teilw_erwerbsgemind"] = False
+    ms_of = dict(size_rows)
+    df["mietstufe"] = [ms_of.get(int(h), int(m)) for h, m in zip(df["hh_id"], df["mietstufe"])]
+    adult = (df["alter"] >= 18).to_numpy()
+    df["steuerklasse"] = np.where(adult, (np.arange(len(df)) % 6) + 1, 1)
+    df["steuerklasse"] = np.where((df["p_id_ehepartner"] < 0) & df["steuerklasse"].isin([3, 4, 5]), 1, df["steuerklasse"])
+    df["behinderungsgrad"] = (np.arange(len(df)) % 11) * 10
+    df["schwerbeh_g"] = df["behinderungsgrad"] >= 50
+    for c, t in {"alter": np.int64, "geburtsjahr": np.int64, "jahr_renteneintr": np.int64, "mietstufe": np.int64,
+                 "steuerklasse": np.int64, "behinderungsgrad": np.int64, "geburtsmonat": np.int64}.items():
+        df[c] = df[c].astype(t)
+    return df
